@@ -59,7 +59,8 @@ func (vEnc) Marshal(r vReq) ([]byte, error) {
 	return []byte(fmt.Sprintf("%d %d", r.id, r.sz)), nil
 }
 
-// vFaultClient fails every Batch while failWrites is set (the harness sets it around ONE Offer)
+// vFaultClient: while failWrites is set (around ONE OnDone) every Batch that deletes an item fails; a request whose
+// stored value carries the marker " failwrite" fails to be written
 type vFaultClient struct {
 	storage.Client
 	failWrites atomic.Bool
@@ -67,7 +68,13 @@ type vFaultClient struct {
 
 func (c *vFaultClient) Batch(ctx context.Context, ops ...*storage.Operation) error {
 	if c.failWrites.Load() {
-		return vErrStore
+		// only the deletion of a finished item (itemDispatchingFinish) fails: a producer woken by that OnDone's
+		// Signal writes concurrently and must not be hit
+		for _, op := range ops {
+			if op.Type == storage.Delete {
+				return vErrStore
+			}
+		}
 	}
 	// a parked producer whose write is to fail: its item value carries the marker
 	for _, op := range ops {
@@ -109,6 +116,7 @@ type vProd struct {
 	enq       bool
 	selN      int64
 	faultNoted bool
+	parked     bool // it has been parked in cond.Wait at some point
 	fault     int // 0 none, 1 Encoding.Marshal fails, 2 the storage write fails (persistent queue)
 }
 
@@ -542,7 +550,7 @@ func (e *vEng) opCRead() {
 		// the consumer dropped every queued (unreadable) item, re-synced the size, signalled a blocked producer and
 		// parked; that producer enqueued and woke the consumer again, which returned the new request
 		e.noteParked(enq0)
-		e.lab(14, int64(c.k), 0, 30)
+		e.lab(14, int64(c.k), 0, 4)
 		c.labelled = true
 		// first the producer whose request this consumer got (its enqueue woke the consumer), then the consumer's
 		// return (which may re-sync the size and signal again), then whoever was woken after that
@@ -565,7 +573,7 @@ func (e *vEng) opCRead() {
 		e.wakeLabels(n0, e.newlyEnq(enq0))
 	} else {
 		e.noteParked(enq0)
-		e.lab(14, int64(c.k), 0, 30)
+		e.lab(14, int64(c.k), 0, 4)
 		c.labelled = true
 		e.wakeLabels(n0, e.newlyEnq(enq0)) // persistent queue: dropping the last item re-syncs the size and signals
 		e.nontriv = true
@@ -741,9 +749,11 @@ func (e *vEng) stableOracle() {
 		e.oracle("size-nonzero-when-all-finished", fmt.Sprintf("kind=%s size=%d", e.kindName(), size))
 	}
 	if unfinished == 0 && !e.stopped {
+		// oversized requests that have parked in this case, including those that have left again: the wake-ups they
+		// consumed stay lost after they are gone (S1's after-effect, see NOTES.md)
 		nOver := 0
-		for _, p := range e.waiters() {
-			if p.sz > e.cap {
+		for _, id := range e.order {
+			if p := e.prods[id]; p.started && p.sz > e.cap && (p.parked || (!p.returned && !p.enq)) {
 				nOver++
 			}
 		}
@@ -804,6 +814,9 @@ func (e *vEng) expectedOffer(sz, sizeBefore int64) int64 {
 			return 2
 		}
 	}
+	if e.kind == 1 && e.blocking && sz > e.cap {
+		return 2 // fix f7a3004ea: refused like the in-memory queue instead of waiting for ever
+	}
 	if sizeBefore+sz > e.cap {
 		if e.blocking {
 			return 4
@@ -822,19 +835,16 @@ func (e *vEng) opOffer(p *vProd) {
 	}
 	sizeBefore, _, _ := e.snap()
 	queuedBefore := len(e.itemIDs())
+	n0f, enq0f := e.selCounts(), e.enqSet()
 	p.started = true
 	tag := int64(0)
 	if e.kind == 1 && p.fault != 0 {
 		tag = 16 + int64(p.fault) // 17 marshal error, 18 storage-write error
 	}
-	if p.fault == 2 && e.fclient != nil {
-		e.fclient.failWrites.Store(true)
-	}
+	// (a failing storage write is marked in the request itself, see vFaultClient.Batch: the fault must hit this
+	// request only, not a producer that this Offer's Signal wakes)
 	go func() { p.res <- e.q.Offer(p.ctx, vReq{id: p.id, sz: p.sz, bad: p.fault == 1, badWrite: p.fault == 2}) }()
 	stableOffer := e.settle(2 * time.Second)
-	if p.fault == 2 && e.fclient != nil {
-		e.fclient.failWrites.Store(false)
-	}
 	if !stableOffer {
 		e.lab(tag, int64(p.id), p.sz, -1)
 		e.unstable("offer")
@@ -847,6 +857,8 @@ func (e *vEng) opOffer(p *vProd) {
 			res = vErrClass(p.ret)
 		}
 		e.lab(tag, int64(p.id), p.sz, res)
+		// since fix 03fbf1134 the error paths Signal: a parked producer may be woken (it re-checks; no space was freed)
+		e.wakeLabels(n0f, e.newlyEnq(enq0f))
 		e.observe()
 		exp := int64(9)
 		if p.fault == 2 {
@@ -858,11 +870,25 @@ func (e *vEng) opOffer(p *vProd) {
 				exp = 4 // parks like any other request; it will fail once it gets past the capacity loop
 			}
 		}
+		if e.blocking && p.sz > e.cap {
+			exp = 2 // the size pre-check comes before Marshal
+		}
 		if res != exp {
 			e.oracle("refusal-rule", fmt.Sprintf("kind=%s size_before=%d sz=%d cap=%d fault=%d: got class %d want %d", e.kindName(), sizeBefore, p.sz, e.cap, p.fault, res, exp))
 		}
-		if p.returned {
+		if res == 4 {
+			p.parked = true
+		}
+		if res == 2 {
 			e.refusedUnchanged(p, res, sizeBefore, queuedBefore)
+		} else if p.returned {
+			// the Signal of the error path may have let a parked producer in: that one's size and item are its own
+			sb, qb := sizeBefore, queuedBefore
+			for _, o := range e.newlyEnq(enq0f) {
+				sb += o.sz
+				qb++
+			}
+			e.refusedUnchanged(p, res, sb, qb)
 		} else {
 			e.nontriv = true
 		}
@@ -917,6 +943,9 @@ func (e *vEng) opOffer(p *vProd) {
 	}
 	if res == 4 || res == 5 {
 		e.nontriv = true
+	}
+	if res == 4 {
+		p.parked = true
 	}
 	if res == 1 || res == 2 || res == 3 {
 		e.refusedUnchanged(p, res, sizeBefore, queuedBefore)
@@ -1251,7 +1280,8 @@ func vScript(out *vOut, rng *vRand, kind int, blocking, wfr bool) {
 	nops := 10 + rng.Intn(50)
 	next := 0
 	// a persistent queue with block_on_overflow never returns from an oversized Offer (S1): keep such cases rare
-	allowOver := !(kind == 1 && blocking) || rng.Intn(12) == 0
+	// (S1 repaired: an oversized Offer to a blocking persistent queue is refused, so such sizes are as frequent as elsewhere)
+	allowOver := true
 	for k := 0; k < nops && !e.dead; k++ {
 		items := e.queued()
 		infl := e.inflightIDs()
@@ -1309,7 +1339,7 @@ func vScript(out *vOut, rng *vRand, kind int, blocking, wfr bool) {
 		case 0:
 			p := e.newProd(next, vPickSize(rng, capacity, reqSizer, kind == 0, allowOver))
 			next++
-			if kind == 1 && !blocking && rng.Intn(7) == 0 {
+			if kind == 1 && ((!blocking && rng.Intn(7) == 0) || (blocking && rng.Intn(9) == 0)) {
 				p.fault = 1 + rng.Intn(2) // Marshal fails / the storage write fails
 			} else if rng.Intn(25) == 0 { // context already ended when Offer is called
 				e.opCancel(p)
